@@ -249,6 +249,8 @@ class Relation(Job):
         return [Case(self.mode, gen.render(e, self.mode), mk(xs_ops(self.mode, xs))) for e, xs in zip(self.exprs(), self.streams)]
 
     def decide(self, impl, rel, model):
+        if any(l[:1] == ["P assert"] for l in impl) and (self.mode == "s" or self.params.get("ctor_may_reject")):
+            return None   # the constructor rejects these parameters (Alma: kernel weights underflow in this scalar type): no view, nothing to check
         outs = [outputs(self.mode, l) for l in impl]
         for o, xs in zip(outs, self.streams):
             if len(o) != len(xs) or any(isinstance(v, tuple) for v in o):
@@ -471,6 +473,8 @@ class NoPanic(Job):
         return [self.case()]
 
     def decide(self, impl, rel, model):
+        if self.mode == "s" and impl[0][:1] == ["P assert"] and rel[0][:1] == ["P assert"]:
+            return None   # rejected by the constructor for this scalar type: the property speaks of constructed views
         for name, lines in (("debug assertions on", impl[0]), ("debug assertions off", rel[0])):
             for l in lines:
                 if l.startswith("P"):
